@@ -157,6 +157,11 @@ int32_t jls_track_repair_pointers(struct jls_core_track_s * track) {
                 jls_core_update_chunk_header(core, &index_chunk);
                 jls_core_update_chunk_header(core, &summary_chunk);
                 offset = offset_descend;
+                if ((0 == offset) && (1 == level)) {
+                    // no stored block is known from the index entries seen: the end of
+                    // the data list is found from its head
+                    offset = offsets[0];
+                }
             } else {
                 JLS_LOGI("restart signal_id %d track %d, level %d, offset %" PRIi64,
                          (int) signal_id, (int) track->track_type, (int) level, offsets[level - 1]);
@@ -179,8 +184,11 @@ int32_t jls_track_repair_pointers(struct jls_core_track_s * track) {
                  (int) signal_id, (int) track->track_type, (int) level, offset);
         if (jls_raw_chunk_seek(raw, offset) || jls_core_rd_chunk(core)) {
             if (data_chunk.offset) {
+                // the last readable chunk ends the list
                 data_chunk.hdr.item_next = 0;
-                jls_core_update_chunk_header(core, &summary_chunk);
+                jls_core_update_chunk_header(core, &data_chunk);
+            } else if (offset == track->head_offsets[0]) {
+                track->head_offsets[0] = 0;  // not even the first chunk is there
             }
             break;
         }
